@@ -23,3 +23,8 @@ chk("C08", "exploration",
     "the reference run is the oracle's baseline; names with a rule{enable} override are don't-care for the global forms (documented override); rule/dependency never fires under lint",
     "relational (metamorphic) monitor over H1 report dumps of pint child processes",
     "DESIGN.md §3 C08")
+chk("C07", "exploration",
+    "relational two-run monitor on the real binary: for every (rule, reporter) pair in the report of an 'everything fires' scenario one control comment is inserted (6 forms x 8 rule placements / 2 file placements x 3 spellings, LF and CRLF, locked and unlocked blocks, offline and online) and the H1 report multiset must equal the base multiset, lines shifted, minus exactly the targeted slice; expired snoozes and locked blocks must change nothing.",
+    "the base run is the reference; snooze times are decades from the clock; name(prom)/name(+tag) spellings only for checks whose identity is name(prom); placements restricted to those that attach to the rule by YAML's rules",
+    "relational (metamorphic) monitor over H1 report dumps of pint child processes",
+    "DESIGN.md §3 C07")
